@@ -888,7 +888,21 @@ void start_impl(const void *context, const GraphView &graph,
       // HideExceptions: a buggy observer must not mask the rollback itself,
       // nor terminate() by throwing a second exception during unwind.
       notify_after = true;
-      node_view.stop(state.evaluation_time);
+      // Best effort, like stop_impl: a node whose stop throws during the
+      // rollback must not leave the nodes started before it running. The
+      // start failure being unwound stays the error that reaches the caller.
+      bool stop_failed = false;
+      try {
+        node_view.stop(state.evaluation_time);
+      } catch (...) {
+        stop_failed = true;
+      }
+      if (stop_failed) {
+        try {
+          state.lifecycle_observers->notify_stop_node_failed(node_view);
+        } catch (...) {
+        }
+      }
       failed_notify.release();
     }
     state.next_scheduled_time = MAX_DT;
